@@ -9,8 +9,10 @@ K1  Model/Ws.v (extracted run_ws / run_ws_otel) vs execute_ws of the two bundled
     connect-parameters stream.
 K3  the property's own oracle: the same real runs compared with the SPECIFICATION spec_ws
     (extracted too) on the observables of the property text (messages sent, values yielded,
-    close() calls, outcome).  Deviations are routed by the Coq guards g_vars/g_shape/g_truthy/
-    g_stop (the finding classes); outside every class a deviation is a VIOLATION.
+    connect parameters, close() calls, outcome).  Deviations are routed by the Coq guards
+    g_shape/g_nonnull (the OPEN finding classes); outside every class a deviation is a VIOLATION —
+    in particular the repaired classes F26 (frames after complete), C13-vars-not-json, F14 for {} data, whose
+    witnesses stay in the streams as regression cases.
 RT  runtime-only: a sample of sequences against a REAL websockets server on 127.0.0.1 that plays
     the frames and records handshake (subprotocol, headers, origin) and the client's messages;
     also validates the fake connection (same trace).
@@ -116,7 +118,7 @@ CFG_SIDE = {
     "kw-other": {"url": "ws://h.test/g", "kw_other": {"ping_interval": None, "max_size": 1024}, "init_payload": {"a": 1}},
 }
 
-CLASSES = ["C13-vars-not-json", "C13-shape-crash", "F14-falsy-data", "F26-after-complete"]
+CLASSES = ["C13-shape-crash", "F14-null-data"]
 
 
 # ----------------------------------------------------------------------------------------------
@@ -199,8 +201,8 @@ def _worker(task):
             continue
         m = {"plain": I.decode_trace(r[0]), "otel": I.decode_trace(r[1]), "otel-tracer": I.decode_trace(r[2])}
         spec = I.decode_trace(r[3])
-        g_vars, g_shape, g_truthy, g_stop = (x == "t" for x in r[4][:4])
-        kinds = [k if isinstance(k, str) else k[0] for k in r[4][4]]
+        g_shape, g_truthy = (x == "t" for x in r[4][:2])
+        kinds = [k if isinstance(k, str) else k[0] for k in r[4][2]]
         out["cases"] += 1
         acked = len(kinds) > 1 and kinds[0] == "ack"
         if acked and cname == "init-unset" and vname == "none":
@@ -210,7 +212,7 @@ def _worker(task):
             for l in (letters or []):
                 dist("letters", l)
             dist("spec_outcome", spec["fin"] if isinstance(spec["fin"], str) else spec["fin"][0])
-            dist("guards", "vars%d shape%d truthy%d stop%d" % (g_vars, g_shape, g_truthy, g_stop))
+            dist("guards", "shape%d truthy%d" % (g_shape, g_truthy))
         dist("config", f"{cname} vars-{vname}")
         sp = I.project(spec)
         for v in variants:
@@ -229,8 +231,7 @@ def _worker(task):
             dev = [k for k in ("connect", "sent", "yielded", "closes", "fin") if I.strict(ip[k]) != I.strict(sp[k])]
             cls = None
             if dev:
-                cls = ("C13-vars-not-json" if not g_vars else "C13-shape-crash" if not g_shape
-                       else "F14-falsy-data" if not g_truthy else "F26-after-complete" if not g_stop else None)
+                cls = "C13-shape-crash" if not g_shape else "F14-null-data" if not g_truthy else None
             if diffs:
                 if len(out["k1"]) < 5:
                     out["k1"].append({"replay": replay, "differs": diffs,
@@ -302,19 +303,22 @@ def run(ctx):
     from . import c13_impl as I
 
     maxlen = 5 if ctx.thorough else 4
-    rotate_len = None   # (a rotating-configuration sweep of all length-6 sequences costs ~15 min more; the
-    # sequences of length maxlen+1 that do not start with the ack stop at their first frame)
+    two = [ALL_COMBOS[0], ALL_COMBOS[3]]
+    n_sample = 6000
     run.rule = (f"EXHAUSTIVE: every sequence of length 0..{maxlen} over the 13-letter frame alphabet {LETTERS} "
                 "x {init payload unset, set} x {variables none, rich (UNSET, aliased pydantic models with unset fields, "
                 "nested lists)} x {plain client, OpenTelemetry client without tracer, with a recording tracer}"
-                + f"; every ack-prefixed sequence of length {maxlen + 1} x {{init unset + variables none, init set + variables rich}} x the 3 clients"
-                + (f"; length {rotate_len} with the configuration rotated per sequence" if rotate_len else "")
+                + ("" if ctx.thorough else " (at length 4 the configurations are {init unset + variables none, init set + "
+                   "variables rich}; the full 2x2 product up to length 3)")
+                + (f"; every ack-prefixed sequence of length {maxlen + 1}" if ctx.thorough else
+                   f"; a seeded sample of {n_sample} distinct ack-prefixed sequences of length {maxlen + 1} (not exhaustive)")
+                + " x {init unset + variables none, init set + variables rich} x the 3 clients"
                 + "; plus malformed-shape, variables and connect-parameter side streams and a real-websockets-server sample. "
                 "evaluations = execute_ws runs; non-trivial = distinct frame sequences whose first frame is the ack and "
                 "that have at least one more frame (they reach the streaming phase)")
     run.assumptions += [
-        "connection behaviour (buffered frames delivered after close(), send() after close() raises ConnectionClosedOK, "
-        "exhausted connection: recv() raises ConnectionClosedOK / iteration ends) is that of websockets 17.1; the fake "
+        "connection behaviour (exhausted connection: recv() raises ConnectionClosedOK / iteration ends; frames buffered "
+        "after close() would still be delivered, send() after close() raises) is that of websockets 17.1; the fake "
         "connection reproducing it is compared with a real loopback server on every run",
         "frames are text frames; JSON object keys are unique; no float leaves (Base/Json.v truthy)",
         "OpenTelemetry: a recording tracer stub (opentelemetry-sdk is not installed); span attributes are not compared, span names are",
@@ -325,19 +329,31 @@ def run(ctx):
     for L in range(0, maxlen + 1):
         pl = min(L, 2)
         for prefix in itertools.product(range(len(LETTERS)), repeat=pl):
-            tasks.append(("exh", prefix, L, ALL_COMBOS))
-    # every ACK-PREFIXED sequence one frame longer (uniform enumeration spends 12/13 of its cases on a
-    # first frame that is not the ack)
-    for prefix in itertools.product(range(len(LETTERS)), repeat=2):
-        tasks.append(("exh", (0,) + prefix, maxlen + 1, [ALL_COMBOS[0], ALL_COMBOS[3]]))
-    if rotate_len:
-        for prefix in itertools.product(range(len(LETTERS)), repeat=3):
-            tasks.append(("exh", prefix, rotate_len, [("rot", "rot")]))
+            tasks.append(("exh", prefix, L, ALL_COMBOS if (ctx.thorough or L < maxlen) else two))
+    # ACK-PREFIXED sequences one frame longer (uniform enumeration spends 12/13 of its cases on a first
+    # frame that is not the ack): all of them (thorough) / a seeded sample without repetition (quick)
+    if ctx.thorough:
+        for prefix in itertools.product(range(len(LETTERS)), repeat=2):
+            tasks.append(("exh", (0,) + prefix, maxlen + 1, two))
+    else:
+        n = len(LETTERS)
+        picked = []
+        for code in ctx.rng.sample(range(n ** maxlen), n_sample):
+            idx = [0]
+            for _ in range(maxlen):
+                idx.append(code % n)
+                code //= n
+            letters = [LETTERS[i] for i in idx]
+            frames = [mk_frame(l, i) for i, l in enumerate(letters)]
+            for iname, vname in two:
+                picked.append((letters, frames, "init-" + iname, dict(CFG_BASE, init_payload=INIT[iname]), vname, True))
+        for i in range(0, len(picked), 400):
+            tasks.append(("list", picked[i:i + 400]))
     side = side_cases()
     for i in range(0, len(side), 40):
         tasks.append(("list", side[i:i + 40]))
     # longest tasks first
-    tasks.sort(key=lambda t: -(len(LETTERS) ** (t[2] - len(t[1])) if t[0] == "exh" else 1))
+    tasks.sort(key=lambda t: -(len(LETTERS) ** (t[2] - len(t[1])) * len(t[3]) if t[0] == "exh" else len(t[1])))
     tot = {"runs": 0, "cases": 0, "nontrivial": 0}
     k1_n, k1_first, devs, dev_counts = 0, [], [], {}
     model_errors = []
@@ -368,7 +384,7 @@ def run(ctx):
     if model_errors:
         run.broken("model driver returned an error", json.dumps(model_errors[0], default=repr)[:2000])
     # ---- K1 disagreements: search = the property oracle on the same (shortest) input
-    k1_first.sort(key=lambda x: len(x["replay"]["frames"]))
+    k1_first.sort(key=lambda x: (not (bool(x["property_deviation"]) and x["class"] is None), len(x["replay"]["frames"])))
     for x in k1_first[:3]:
         outside = bool(x["property_deviation"]) and x["class"] is None
         run.violation(
